@@ -1,6 +1,130 @@
+(* C03 - cancelling an eager awaitable always reaches the started coroutine.
+   Model-level content over Sched/Model.v (current code: _EagerContinuation forwards a
+   throw() before the first step into the started coroutine).  Proofs: Sched/EagerProofs.v.
+
+   Vocabulary (see also Props/C01.v):
+     TEager y frs k     continuation task of eager(), not yet stepped: the started coroutine is
+                        suspended with library frames frs and continuation k, having yielded y
+     TSusp frs k        an ordinary task suspended at the same point
+     as_susp s t frs k  s with task t's continuation replaced by TSusp frs k
+     run_cont t frs k inp s
+                        the coroutine resumed at its suspension point with inp: resume_stack over
+                        its library frames, then its own continuation k on the reply (exec)
+     step_input s t exc what Task.__step hands to the coroutine: exc, or - when a cancel() is
+                        pending (tmustc) - a CancelledError (exc itself if it is one)
+     step_task_old      Task.__step over the UNREPAIRED as_coroutine() wrapper (differs from
+                        step_task only for a throw into an unstepped TEager task) *)
 From Coq Require Import QArith.
-From Asynkit Require Import Base.Prelude Sched.Model.
-(* placeholder: the C03 theorems land in Sched/EagerProofs.v *)
-Theorem C03_bind_ret : forall v f, bind (Ret v) f = f (RVal v).
-Proof. reflexivity. Qed.
-Print Assumptions C03_bind_ret.
+From RecordUpdate Require Import RecordUpdate.
+From Asynkit Require Import Base.Prelude Sched.Model Sched.ThrowProofs Sched.Corr Sched.EagerProofs.
+Import RecordSetNotations.
+Open Scope nat_scope.
+
+(* cancel() right after eager() returned (continuation not yet stepped, hence no waiter):
+   only _must_cancel is set; the next step throws CancelledError into the STARTED coroutine at
+   its suspension point (frames frs, then k) - literally the step of the same task suspended
+   there as an ordinary task; a repeated cancel() changes nothing.  The last two clauses cover
+   any state in which that step is eventually taken, and any pending exception. *)
+Theorem C03_cancel_reaches :
+  (forall s tn y frs k,
+     tdone s tn = false -> tcont_ (gett s tn) = TEager y frs k -> twaiter (gett s tn) = None ->
+     let s' := fst (cancel_task s tn) in
+     snd (cancel_task s tn) = true /\
+     s' = sett s tn (gett s tn <| tmustc := true |>) /\
+     tmustc (gett s' tn) = true /\ tcont_ (gett s' tn) = TEager y frs k /\ tdone s' tn = false /\
+     step_task tn None s' =
+       (let '(s2, o) := run_cont tn frs k (RExc ECancelled) (running_state s tn) in
+        finish_step tn s2 o <| current := None |>) /\
+     step_task tn None s' = step_task tn None (as_susp s' tn frs k) /\
+     cancel_task s' tn = (s', true)) /\
+  (forall s tn exc y frs k,
+     tdone s tn = false -> tcont_ (gett s tn) = TEager y frs k -> tmustc (gett s tn) = true ->
+     exists e, step_input s tn exc = Some e /\ is_cancel e = true /\
+       step_task tn exc s =
+         (let '(s2, o) := run_cont tn frs k (RExc e) (running_state s tn) in
+          finish_step tn s2 o <| current := None |>) /\
+       step_task tn exc s = step_task tn exc (as_susp s tn frs k)) /\
+  (* whenever the first step is a throw (pending cancel, task_throw, failed wake-up) the
+     TEager case of step_task coincides with the TSusp case *)
+  (forall s tn exc e y frs k,
+     tdone s tn = false -> tcont_ (gett s tn) = TEager y frs k -> step_input s tn exc = Some e ->
+     step_task tn exc s = step_task tn exc (as_susp s tn frs k)).
+Proof.
+  split; [exact eager_cancel_reaches|]. split; [exact eager_step_cancelled|].
+  exact step_eager_throw_as_susp.
+Qed.
+Print Assumptions C03_cancel_reaches.
+
+(* after the first step the task is an ordinary suspended task: cancel() while runnable sets
+   _must_cancel and the next step throws CancelledError at the suspension point; cancel() while
+   blocked on a pending plain future cancels that future, whose wake-up throws CancelledError
+   there; cancelling again while that wake-up is pending only sets _must_cancel, and the
+   coroutine still receives a single CancelledError *)
+Theorem C03_cancel_reaches_later :
+  forall s t frs k,
+  tdone s t = false -> tcont_ (gett s t) = TSusp frs k ->
+  (twaiter (gett s t) = None ->
+     let s' := fst (cancel_task s t) in
+     step_task t None s' =
+       (let '(s2, o) := run_cont t frs k (RExc ECancelled) (running_state s t) in
+        finish_step t s2 o <| current := None |>)) /\
+  (forall f, twaiter (gett s t) = Some f -> fowner (getf s f) = None -> fstate_ (getf s f) = FPending ->
+     cancel_task s t = (fst (fut_finish s f FCancelled), true)) /\
+  (forall f, twaiter (gett s t) = Some f -> fowner (getf s f) = None -> fstate_ (getf s f) <> FPending ->
+     cancel_task s t = (sett s t (gett s t <| tmustc := true |>), true)) /\
+  (forall u f, tdone u t = false -> tcont_ (gett u t) = TSusp frs k ->
+     fstate_ (getf u f) = FCancelled -> fcexc (getf u f) = None ->
+     wakeup t f u =
+       (let '(s2, o) := run_cont t frs k (RExc ECancelled) (running_state u t) in
+        finish_step t s2 o <| current := None |>)).
+Proof.
+  intros s t frs k Hd Hk. destruct (susp_cancel_reaches s t frs k Hd Hk) as (A & B & C).
+  split; [exact A|]. split; [exact B|]. split; [|exact C].
+  intros f Hw Ho Hp. apply (cancel_blocked_again s t f); assumption.
+Qed.
+Print Assumptions C03_cancel_reaches_later.
+
+(* no stranded coroutine: finish_step leaves TFin exactly when the coroutine returned/raised;
+   and a step of an eager continuation or of a suspended task either keeps a suspension point of
+   the coroutine, or finishes the task BY RUNNING the coroutine (its frames and continuation were
+   resumed and ran to the end) - it is never dropped unrun *)
+Theorem C03_no_stranded :
+  (forall t s o, t < length (tasks s) ->
+     tcont_ (gett (finish_step t s o) t) =
+     match o with ODone _ => TFin | OYield _ frs k => TSusp frs k end) /\
+  (forall s t exc y frs k,
+     tdone s t = false ->
+     (tcont_ (gett s t) = TSusp frs k \/ tcont_ (gett s t) = TEager y frs k) ->
+     let s' := step_task t exc s in
+     (exists frs' k', tcont_ (gett s' t) = TSusp frs' k') \/
+     (tcont_ (gett s' t) = TFin /\
+      exists inp s2 r, run_cont t frs k inp (running_state s t) = (s2, ODone r))).
+Proof. split; [exact finish_step_tcont|exact step_no_stranded]. Qed.
+Print Assumptions C03_no_stranded.
+
+(* the unchanged tree violated the property at exactly one instant: the probe of DESIGN 4/C03
+     t = eager(body()); t.cancel(); await t
+     body: log 1; try: await fut0  except CancelledError: log 2; raise  finally: log 3
+   run on the model logs 1,2,3; run with the old step function (identical except for a throw
+   into an unstepped continuation, which ended the task without resuming the coroutine) it never
+   logs more than 1 although the awaitable ends cancelled in both *)
+Theorem C03_refuted_before_fix :
+  (forall s t exc,
+     (forall y frs k, tcont_ (gett s t) = TEager y frs k -> step_input s t exc = None) ->
+     step_task_old t exc s = step_task t exc s) /\
+  (forall s, run_one_with step_task s = run_one s) /\
+  body_events (iter 6 run_one probe_start) = [1; 2; 3]%Z /\
+  rq_items (ready (iter 6 run_one probe_start)) = [] /\
+  body_events (iter 6 (run_one_with step_task_old) probe_start) = [1]%Z /\
+  rq_items (ready (iter 6 (run_one_with step_task_old) probe_start)) = [] /\
+  (forall n, let ev := body_events (iter n (run_one_with step_task_old) probe_start) in
+             ev = [] \/ ev = [1]%Z) /\
+  fstate_ (getf (iter 6 run_one probe_start) 2) = FCancelled /\
+  fstate_ (getf (iter 6 (run_one_with step_task_old) probe_start) 2) = FCancelled /\
+  tcont_ (gett (iter 6 run_one probe_start) 1) = TFin /\
+  tcont_ (gett (iter 6 (run_one_with step_task_old) probe_start) 1) = TFin.
+Proof.
+  split; [exact step_task_old_same|]. split; [exact run_one_with_model|].
+  exact cancel_before_first_step_probe.
+Qed.
+Print Assumptions C03_refuted_before_fix.
